@@ -59,3 +59,98 @@ Definition cmp_slash (a b : list N) : comparison := cmp_slash_fuel (S (length a)
 Definition key_ltb (a b : list N) : bool := match cmp_slash a b with Lt => true | _ => false end.
 Definition key_leb (a b : list N) : bool := match cmp_slash a b with Gt => false | _ => true end.
 Definition key_eqb (a b : list N) : bool := match cmp_slash a b with Eq => true | _ => false end.
+
+(* ------------------------------------------------------------------ *)
+(* The comparer members configured in server/kv/kv_pebble.go:OxiaSlashSpanComparer.
+   [Compare] is [cmp_slash] above.  Byte arithmetic is explicit ([byte_inc] = Go's b++ on a uint8). *)
+
+Definition U64MAX : N := 18446744073709551615%N.
+Definition byte_inc (x : N) : N := N.modulo (x + 1) 256.
+
+(* pebble.DefaultComparer.AbbreviatedKey: the first 8 bytes, big endian, zero padded on the right *)
+Fixpoint be_pad (n : nat) (k : list N) (acc : N) : N :=
+  match n with
+  | O => acc
+  | S n' =>
+      match k with
+      | [] => be_pad n' [] (acc * 256)
+      | x :: k' => be_pad n' k' (acc * 256 + x)
+      end
+  end.
+Definition default_abbreviated_key (k : list N) : N := be_pad 8 k 0.
+
+(* compare.AbbreviatedKeyDisableSlash *)
+Definition abbreviated_key (k : list N) : N :=
+  match split_slash k with
+  | Some _ => U64MAX
+  | None => default_abbreviated_key k
+  end.
+
+(* base.SharedPrefixLen *)
+Fixpoint shared_prefix_len (a b : list N) : nat :=
+  match a, b with
+  | x :: a', y :: b' => if N.eqb x y then S (shared_prefix_len a' b') else O
+  | _, _ => O
+  end.
+
+(* "increment the first byte that is not 0xff and cut after it"; None when there is no such byte.
+   This is the loop shared by DefaultComparer.Successor and the tail of DefaultComparer.Separator. *)
+Fixpoint bump_first_non_ff (l : list N) : option (list N) :=
+  match l with
+  | [] => None
+  | x :: l' =>
+      if N.eqb x 255 then
+        match bump_first_non_ff l' with
+        | Some t => Some (x :: t)
+        | None => None
+        end
+      else Some [byte_inc x]
+  end.
+
+(* pebble.DefaultComparer.Separator (dst = empty): what OxiaSlashSpanComparer configured before the
+   repair of O-9.  Kept so that the refutation of its contract stays documented. *)
+Definition bytewise_separator (a b : list N) : list N :=
+  let i := shared_prefix_len a b in
+  if Nat.leb (Nat.min (length a) (length b)) i then a
+  else
+    let ai := nth i a 0%N in
+    let bi := nth i b 0%N in
+    if N.leb bi ai then a
+    else if Nat.ltb i (length b - 1) || N.ltb (byte_inc ai) bi then firstn i a ++ [byte_inc ai]
+    else match bump_first_non_ff (skipn (S i) a) with
+         | Some t => firstn (S i) a ++ t
+         | None => a
+         end.
+
+(* pebble.DefaultComparer.Successor (dst = empty), likewise pre-repair *)
+Definition bytewise_successor (a : list N) : list N :=
+  match bump_first_non_ff a with
+  | Some t => t
+  | None => a
+  end.
+
+(* The members as configured now (after the repair): Separator and Successor return the key itself. *)
+Definition separator (a b : list N) : list N := a.
+Definition successor (a : list N) : list N := a.
+(* pebble.DefaultComparer.ImmediateSuccessor *)
+Definition immediate_successor (a : list N) : list N := a ++ [0%N].
+(* pebble.DefaultComparer.Split is nil: no prefix extraction is configured *)
+Definition split_configured : bool := false.
+
+(* base.InternalKey.Separator / InternalKey.Successor: the sstable writer keeps the last key [a] of the
+   block unless the candidate is not longer than [a] and sorts strictly after it. *)
+Definition guard (a s : list N) : list N :=
+  if Nat.leb (length s) (length a) && key_ltb a s then s else a.
+Definition effective_sep_with (sep : list N -> list N -> list N) (a b : list N) : list N := guard a (sep a b).
+Definition effective_succ_with (succ : list N -> list N) (a : list N) : list N := guard a (succ a).
+Definition effective_sep (a b : list N) : list N := effective_sep_with separator a b.
+Definition effective_succ (a : list N) : list N := effective_succ_with successor a.
+
+(* ------------------------------------------------------------------ *)
+(* Order in which the client's ResultHeap (oxia/results_heap.go, Less = CompareWithSlash < 0) pops keys *)
+Fixpoint key_insert (k : list N) (l : list (list N)) : list (list N) :=
+  match l with
+  | [] => [k]
+  | x :: tl => if key_leb k x then k :: l else x :: key_insert k tl
+  end.
+Definition key_sort (l : list (list N)) : list (list N) := fold_right key_insert [] l.
